@@ -425,6 +425,54 @@ func runC17(c *Ctx) {
 		c.Check("C17.P2", "unpublished:id=ns:suffix:initial-state", okID, f.Pos(), "with an initial state the document id is \"<ns>:<suffix>:<initial state>\"")
 		c.Check("C17.P2", "unpublished:equivalentId=ns:suffix", okEq && shortID, f.Pos(), "the short form \"<ns>:<suffix>\" is listed as equivalent id")
 	}
+	// ---- T1 creation maps each verification relationship of the supplied document to the key purpose of the same name
+	// (a crossed pair would bring a key back under another relationship than it was supplied with)
+	if gk := c.Fn("vdr/sidetreelongform", "getSidetreePublicKeys"); gk != nil {
+		c.Analysed(gk)
+		pairs := map[string]string{} // relationship constant (number) -> purpose string
+		isRel := func(p string) bool { return strings.HasSuffix(p, ".Relationship") }
+		for k, blk := range c.caseTable(gk, nil, isRel) {
+			pairs[k] = unquote(c.phiConstFrom(gk, blk))
+		}
+		if len(pairs) == 0 {
+			if g, lk := c.globalTableLookup(gk, isRel); g != nil && lk.CommaOk {
+				// every verification method of the document crosses the found edge (for-all form: the lookup sits in the loop)
+				if found, _, n := c.GuardLoop(gk, nil, &GCheck{Name: "relationship found in the table", NoDescend: true, MatchOK: func(c *Ctx, v ssa.Value, env Env) bool { return v == ssa.Value(lk) }}); found && n > 0 {
+					for _, mu := range c.globalMapUpdates(g) {
+						pairs[c.Path(mu.Key, nil)] = unquote(c.Path(mu.Value, nil))
+					}
+				}
+			}
+		}
+		// names of the relationship constants, from the type-checked did-go package
+		names := map[string]string{}
+		for path, tp := range c.TPkg {
+			if !strings.HasSuffix(path, "did-go/doc/did") || tp.Types == nil {
+				continue
+			}
+			sc := tp.Types.Scope()
+			for _, n := range sc.Names() {
+				if k, ok := sc.Lookup(n).(*types.Const); ok && strings.HasSuffix(k.Type().String(), ".VerificationRelationship") {
+					names[k.Val().ExactString()] = n
+				}
+			}
+		}
+		ok := len(pairs) == 5
+		var show []string
+		for num, purpose := range pairs {
+			name := names[num]
+			show = append(show, name+"->"+purpose)
+			if name == "" || !strings.EqualFold(name, purpose) {
+				ok = false
+			}
+		}
+		sort.Strings(show)
+		c.Check("C17.T1", "create:relationship-to-purpose", ok, gk.Pos(), fmt.Sprintf("verification relationship -> key purpose: %v (each purpose carries the name of its relationship; five relationships)", show))
+	} else {
+		c.Unresolved("C17.T1", "sidetreelongform.getSidetreePublicKeys")
+	}
+	c.Min("C17.T1", 1)
+
 	// ProcessOperation: the long-form DID handed back embeds b64url(JCS(create request)) — what ResolveDocument
 	// requires of an initial state (C17.G1) — and the suffix of the parsed operation
 	if po, tiF := c.Method("vdr/sidetreelongform/dochandler", "DocumentHandler", "ProcessOperation"), c.Fn("docutil", "GetTransformationInfoForUnpublished"); po != nil && tiF != nil {
